@@ -11,6 +11,7 @@ use domain::base::iana::Rcode;
 use domain::base::Rtype;
 use domain::net::client::request::{RequestMessage, SendRequest};
 use domain::net::client::{dgram, dgram_stream, load_balancer, multi_stream, redundant, stream};
+use std::collections::{BTreeMap, BTreeSet};
 use std::cell::RefCell;
 use std::future::Future;
 use std::pin::Pin;
@@ -86,6 +87,9 @@ struct Ledger {
     answered_ns: Vec<Option<u64>>,
     /// The bare stream connection may have closed itself (idle) by now.
     idle_closed: bool,
+    /// Per request: the distinct message ids peers saw in datagrams (one per
+    /// transmission attempt).
+    dgram_ids: BTreeMap<usize, BTreeSet<u16>>,
 }
 
 type Led = Rc<RefCell<Ledger>>;
@@ -225,6 +229,9 @@ fn react(led: &Led, kn: &Knobs, server: usize, health: Health, via: Via, req: &[
     let act = decide(kn, via, health);
     let base_delay = if kn.faulty { sim::draw("peer.delay", 20) } else { sim::draw("peer.delay", 4) };
     ev!("peer{} {:?} rx k={:?} id={} act={:?}", server, via, k, p.id, act);
+    if let (Via::Dgram, Some(k)) = (via, k) {
+        led.borrow_mut().dgram_ids.entry(k).or_default().insert(p.id);
+    }
     // Junk that is not the answer arrives either promptly or late in the
     // timeout window (so that a deadline that restarts on junk shows).
     let junk_delay = |base: u64| -> u64 {
@@ -803,7 +810,11 @@ async fn run(_tier: Tier) {
             Rc::new(conn)
         }
         Kind::Redundant => {
-            let (conn, tr) = redundant::Connection::<RequestMessage<Vec<u8>>>::new();
+            let mut rcfg = redundant::Config::default();
+            rcfg.set_defer_transport_error(sim::chance("cfg.defer_transport_error", 1, 2));
+            rcfg.set_defer_refused(sim::chance("cfg.defer_refused", 1, 2));
+            rcfg.set_defer_servfail(sim::chance("cfg.defer_servfail", 1, 2));
+            let (conn, tr) = redundant::Connection::<RequestMessage<Vec<u8>>>::with_config(rcfg);
             tokio::spawn(tr.run());
             for s in 0..kn.n_servers {
                 if sim::chance("cfg.upstream_stream", 1, 3) {
@@ -817,7 +828,11 @@ async fn run(_tier: Tier) {
             Rc::new(conn)
         }
         Kind::LoadBalancer => {
-            let (conn, tr) = load_balancer::Connection::<RequestMessage<Vec<u8>>>::new();
+            let mut lcfg = load_balancer::Config::default();
+            lcfg.set_defer_transport_error(sim::chance("cfg.defer_transport_error", 1, 2));
+            lcfg.set_defer_refused(sim::chance("cfg.defer_refused", 1, 2));
+            lcfg.set_defer_servfail(sim::chance("cfg.defer_servfail", 1, 2));
+            let (conn, tr) = load_balancer::Connection::<RequestMessage<Vec<u8>>>::with_config(lcfg);
             tokio::spawn(tr.run());
             for s in 0..kn.n_servers {
                 let cc = load_balancer::ConnConfig::new();
@@ -916,6 +931,15 @@ fn check(led: &Led, kn: &Knobs, total: usize, finished: bool, connect_faults: &[
                 return;
             }
         };
+        // --- retry budget: every transmission attempt uses a fresh message
+        // id; a peer never sees more attempts than the configuration allows.
+        if matches!(kn.kind, Kind::Dgram | Kind::DgramStream) {
+            let attempts = l.dgram_ids.get(&k).map(|s| s.len()).unwrap_or(0) as u64;
+            if attempts > kn.dg_retries as u64 + 1 {
+                sim::violation(P, "completion", format!("more-attempts-than-retry-budget/{:?}", kn.kind), format!("request k={}: peers saw {} datagram attempts (distinct ids), the configuration allows {} (max_retries {})", k, attempts, kn.dg_retries as u64 + 1, kn.dg_retries));
+                return;
+            }
+        }
         if matches!(outcome, Outcome::Abandoned) {
             continue;
         }
